@@ -602,12 +602,243 @@ fn check_checksum_sweeps(rep: &mut Report, thorough: bool) -> u64 {
     n
 }
 
-pub fn wire_cases(_tier: &str) -> Vec<Value> {
-    vec![]
+// ---------------------------------------------------------------------------
+// (d) on the wire: the real DhcpService (recvdhcp, raw transmit) on a veth pair
+// ---------------------------------------------------------------------------
+// Messages a client can put on the wire, each as a real Ethernet frame from the peer end; the
+// reply frames captured there are dissected and judged: lengths and both checksums verify, the
+// payload decodes, and the IPv4 destination is the limited broadcast address exactly when the
+// request carried the broadcast bit, otherwise the address the reply assigns (yiaddr) -- also when
+// the client claims, in ciaddr, an address it is not given.
+
+const WIRE_MACS: [[u8; 6]; 2] = [[2, 0, 0, 0, 0, 0x0a], [2, 0, 0, 0, 0, 0x0b]];
+const WIRE_KINDS: [&str; 5] = ["discover", "request-selecting", "request-renew-own", "request-ciaddr-other", "request-ciaddr-foreign"];
+
+fn wire_flags(thorough: bool) -> Vec<u16> {
+    if thorough { vec![0x0000, 0x8000, 0x0001, 0x7fff, 0xffff] } else { vec![0x0000, 0x8000] }
 }
 
-pub fn wire_run_case(_case: &Value) -> crate::netrun::CaseResult {
-    crate::netrun::CaseResult::ok("")
+fn wire_alphabet(thorough: bool) -> Vec<(usize, usize, u16)> {
+    let mut v = vec![];
+    for c in 0..2 {
+        for k in 0..WIRE_KINDS.len() {
+            for f in wire_flags(thorough) {
+                v.push((c, k, f));
+            }
+        }
+    }
+    v
+}
+
+fn wire_histories(thorough: bool) -> Vec<Vec<usize>> {
+    let n = wire_alphabet(thorough).len();
+    let depth = if thorough { 3 } else { 2 };
+    let mut hs: Vec<Vec<usize>> = vec![vec![]];
+    for _ in 0..depth {
+        let mut next = vec![];
+        for h in &hs {
+            for a in 0..n {
+                let mut g = h.clone();
+                g.push(a);
+                next.push(g);
+            }
+        }
+        hs = next;
+    }
+    hs
+}
+
+pub fn wire_cases(tier: &str) -> Vec<Value> {
+    let thorough = tier == "thorough";
+    let n = wire_histories(thorough).len();
+    let chunk = if thorough { 800 } else { 50 };
+    let mut out = vec![];
+    let mut i = 0;
+    while i < n {
+        out.push(json!({"engine":"ewire","check":"c12","from":i,"to":(i + chunk).min(n),"thorough":thorough}));
+        i += chunk;
+    }
+    out
+}
+
+const WIRE_YAML: &str = "---
+dhcp-policies:
+  - match-subnet: 192.0.2.0/24
+    apply-range: {start: 192.0.2.10, end: 192.0.2.11}
+";
+
+pub fn wire_run_case(case: &Value) -> crate::netrun::CaseResult {
+    use crate::ewire::*;
+    use crate::netrun::CaseResult;
+    if !crate::enet::ISOLATED.load(std::sync::atomic::Ordering::SeqCst) {
+        return CaseResult::machinery("the wire part needs a private network namespace (unshare failed)");
+    }
+    let thorough = case["thorough"].as_bool().unwrap_or(false);
+    teardown_veth();
+    if let Err(e) = setup_veth(Route6::None) {
+        return CaseResult::machinery(format!("veth set-up: {e}"));
+    }
+    let mut res = CaseResult::ok("wire");
+    let alpha = wire_alphabet(thorough);
+    let hs = wire_histories(thorough);
+    let (from, to) = (case["from"].as_u64().unwrap_or(0) as usize, case["to"].as_u64().unwrap_or(0) as usize);
+    let mut w = match WireRt::new() {
+        Ok(w) => w,
+        Err(e) => return CaseResult::machinery(e),
+    };
+    crate::common::clock::set_secs(1_700_000_000);
+    let netinfo = w.rt.block_on(erbium_net::netinfo::SharedNetInfo::new());
+    w.pump(4);
+    let mut wire = match Wire::open() {
+        Ok(x) => x,
+        Err(e) => return CaseResult::machinery(e),
+    };
+    let mut n_msgs = 0u64;
+    let mut n_replies = 0u64;
+    let mut classes: std::collections::BTreeSet<String> = Default::default();
+    for h in hs.iter().take(to).skip(from) {
+        let conf = match erbium::config::verif_load_config_from_string(WIRE_YAML) {
+            Ok(c) => c,
+            Err(e) => return CaseResult::machinery(format!("wire config: {e}")),
+        };
+        let pool = match erbium::dhcp::pool::Pool::new_in_memory() {
+            Ok(p) => p,
+            Err(e) => return CaseResult::machinery(e.to_string()),
+        };
+        let svc = match w.rt.block_on(erbium::dhcp::DhcpService::verif_new_on_port(netinfo.clone(), conf, pool, 67)) {
+            Ok(s) => std::sync::Arc::new(s),
+            Err(e) => return CaseResult::machinery(format!("DhcpService on port 67: {e}")),
+        };
+        let task = w.rt.spawn(svc.clone().run());
+        w.pump(4);
+        let mut last: [Option<Ipv4Addr>; 2] = [None, None];
+        for (step, oi) in h.iter().enumerate() {
+            let (c, k, flags) = alpha[*oi];
+            n_msgs += 1;
+            let mac = WIRE_MACS[c];
+            let own = last[c].unwrap_or(Ipv4Addr::new(192, 0, 2, 10));
+            let others = last[1 - c].unwrap_or(Ipv4Addr::new(192, 0, 2, 11));
+            let mut hd = base_header();
+            hd.flags = flags;
+            hd.xid = 0x5000_0000 + (*oi as u32) * 16 + step as u32;
+            hd.chaddr16 = [0; 16];
+            hd.chaddr16[..6].copy_from_slice(&mac);
+            let mut recs: Vec<(u8, Vec<u8>)> = vec![];
+            let mut unicast_from: Option<Ipv4Addr> = None;
+            match WIRE_KINDS[k] {
+                "discover" => recs.push((53, vec![1])),
+                "request-selecting" => {
+                    recs.push((53, vec![3]));
+                    recs.push((50, own.octets().to_vec()));
+                    recs.push((54, SRV_IP4.octets().to_vec()));
+                }
+                "request-renew-own" => {
+                    recs.push((53, vec![3]));
+                    hd.ciaddr = own.octets();
+                    unicast_from = Some(own);
+                }
+                "request-ciaddr-other" => {
+                    recs.push((53, vec![3]));
+                    hd.ciaddr = others.octets();
+                    unicast_from = Some(others);
+                }
+                _ => {
+                    recs.push((53, vec![3]));
+                    hd.ciaddr = [10, 9, 9, 9];
+                }
+            }
+            recs.push((55, vec![1, 3, 6, 51, 54]));
+            let payload = ref_encode(&hd, &recs, &[]);
+            let frame = match unicast_from {
+                Some(src) => udp4_frame(&mac, &SRV_MAC, (src, 68), (SRV_IP4, 67), &payload),
+                None => udp4_frame(&mac, &[0xff; 6], (Ipv4Addr::UNSPECIFIED, 68), (Ipv4Addr::BROADCAST, 67), &payload),
+            };
+            wire.poll();
+            let mark = wire.rx.len();
+            if let Err(e) = wire.send(&frame) {
+                return CaseResult::machinery(e);
+            }
+            // a reply, if there is one, comes within a few rounds; three quiet rounds mean none
+            let mut quiet = 0;
+            let mut reply: Option<Vec<u8>> = None;
+            for _ in 0..60 {
+                w.pump(4);
+                let got = wire.poll();
+                for f in &wire.rx[mark..] {
+                    if f.len() >= 12 && f[6..12] == SRV_MAC && as_dhcp_reply(f).is_some() {
+                        reply = Some(f.clone());
+                    }
+                }
+                if reply.is_some() {
+                    break;
+                }
+                if got == 0 {
+                    quiet += 1;
+                    if quiet >= 6 {
+                        break;
+                    }
+                } else {
+                    quiet = 0;
+                }
+            }
+            let sub = json!({"engine":"ewire","check":"c12","history": h.iter().take(step + 1).map(|i| { let (c, k, f) = alpha[*i]; json!({"client": c, "kind": WIRE_KINDS[k], "flags": f}) }).collect::<Vec<_>>(), "thorough": thorough});
+            let mk = |oracle: &str, what: String| Violation::new(oracle, format!("on the wire, step {step} ({} from client {c}, flags {flags:#06x}): {what}", WIRE_KINDS[k]), sub.clone()).sig("part", "wire").sig("kind", WIRE_KINDS[k]);
+            let Some(f) = reply else {
+                classes.insert(format!("{}:no-reply", WIRE_KINDS[k]));
+                continue;
+            };
+            n_replies += 1;
+            let (dmac, sip, dip, dport, pl) = as_dhcp_reply(&f).unwrap();
+            // lengths, checksums, payload intact -- for the addresses the frame itself carries
+            if let Err(e) = frame_check(&f, &pl, (sip, 67), (dip, dport), &SRV_MAC, &dmac) {
+                res.violations.push(mk("frame-invalid", format!("reply frame: {e}")));
+            }
+            if sip != SRV_IP4 {
+                res.violations.push(mk("frame-source", format!("reply sent from {sip}, the receiving interface's address is {SRV_IP4}")));
+            }
+            if dport != 68 {
+                res.violations.push(mk("frame-port", format!("reply sent to port {dport}, the request came from port 68")));
+            }
+            match ref_decode(&pl) {
+                Err(e) => res.violations.push(mk("wire-decode", format!("the reply payload does not decode: {e}"))),
+                Ok(r) => {
+                    let yi = Ipv4Addr::from(r.yiaddr);
+                    last[c] = Some(yi);
+                    if r.xid != hd.xid {
+                        res.violations.push(mk("wire-xid", format!("reply xid {:#x}, request {:#x}", r.xid, hd.xid)));
+                    }
+                    let want = if flags & 0x8000 != 0 { Ipv4Addr::BROADCAST } else { yi };
+                    if dip != want {
+                        res.violations.push(mk(
+                            "frame-destination",
+                            format!("the reply assigning {yi} is IPv4-addressed to {dip}; the request's broadcast bit is {}, so it must go to {want}", if flags & 0x8000 != 0 { "set" } else { "clear" }),
+                        ));
+                    }
+                    classes.insert(format!("{}:{}:{}", WIRE_KINDS[k], if flags & 0x8000 != 0 { "bcast" } else { "unicast" }, if hd.ciaddr != [0; 4] && Ipv4Addr::from(hd.ciaddr) != yi { "ciaddr-not-granted" } else { "plain" }));
+                }
+            }
+        }
+        task.abort();
+        drop(svc);
+        w.pump(3);
+        wire.rx.clear();
+        let ps = panics::take_all();
+        if let Some(p) = ps.first() {
+            res.violations.push(Violation::new("wire-panic", format!("the service panicked while serving frames: {} at {}", p.msg, panics::short_loc(&p.loc)), case.clone()).sig("loc", panics::short_loc(&p.loc)));
+        }
+    }
+    drop(wire);
+    drop(w);
+    teardown_veth();
+    crate::common::clock::unset();
+    let mut st = serde_json::Map::new();
+    st.insert("wire_messages".into(), json!(n_msgs));
+    st.insert("wire_replies".into(), json!(n_replies));
+    for c in classes {
+        st.insert(format!("class:{c}"), json!(1));
+    }
+    res.stats = Value::Object(st);
+    res
 }
 
 pub fn run(tier: &str, replay: Option<Value>) -> ! {
@@ -626,6 +857,23 @@ pub fn run(tier: &str, replay: Option<Value>) -> ! {
             Some("frame-sweep") => {
                 check_checksum_sweeps(&mut rep, true);
             }
+            _ if case["engine"].as_str() == Some("ewire") => {
+                crate::enet::isolate_network();
+                // replay the one history on a fresh rig
+                let th = case["thorough"].as_bool().unwrap_or(false);
+                let alpha = wire_alphabet(th);
+                let want: Vec<usize> = case["history"].as_array().map(|a| a.iter().filter_map(|m| alpha.iter().position(|(c, k, f)| Some(*c as u64) == m["client"].as_u64() && Some(WIRE_KINDS[*k]) == m["kind"].as_str() && Some(*f as u64) == m["flags"].as_u64())).collect()).unwrap_or_default();
+                // pad to full depth with a harmless repeat of the last message
+                let depth = if th { 3 } else { 2 };
+                let mut full = want.clone();
+                while full.len() < depth {
+                    full.push(*want.last().unwrap_or(&0));
+                }
+                match wire_histories(th).iter().position(|h| *h == full) {
+                    Some(i) => crate::netrun::replay_one(&mut rep, &json!({"engine":"ewire","check":"c12","from":i,"to":i + 1,"thorough":th}), wire_run_case),
+                    None => rep.machinery_error("replay history not in the enumeration"),
+                }
+            }
             _ => {
                 check_roundtrip(&mut rep, true);
             }
@@ -637,7 +885,13 @@ pub fn run(tier: &str, replay: Option<Value>) -> ! {
     let (e2, d2, s2) = check_roundtrip(&mut rep, thorough);
     let (e3, d3, s3) = check_frames(&mut rep);
     let e4 = check_checksum_sweeps(&mut rep, thorough);
-    rep.cov("evaluations", e1 + e2 + e3 + e4);
+    let agg = crate::netrun::run_sharded(&mut rep, "C12", tier, wire_cases, 16);
+    let e5 = agg.stats_sum.get("wire_replies").copied().unwrap_or(0.0) as u64;
+    rep.cov("wire_messages_sent", agg.stats_sum.get("wire_messages").copied().unwrap_or(0.0) as u64);
+    rep.cov("wire_reply_frames_judged", e5);
+    rep.cov("wire_classes", json!(agg.stats_sum.keys().filter_map(|k| k.strip_prefix("class:").map(|s| s.to_string())).collect::<Vec<_>>()));
+    rep.cov("wire_rule", "the real DhcpService (run loop, recvdhcp, real netlink-fed NetInfo, raw transmit) on port 67 on one end of a veth pair in a private network namespace; every history of 2 (thorough 3) messages over {2 clients} x {DISCOVER, REQUEST selecting, REQUEST with ciaddr = own / the other client's / a foreign address} x flags {0, 0x8000} (thorough + 0x0001, 0x7fff, 0xffff) sent as real frames from the other end; every reply frame captured there must verify (lengths, IPv4 and UDP checksum, payload decodes, xid) and be IPv4-addressed to 255.255.255.255 iff the broadcast bit was set, otherwise to the address it assigns");
+    rep.cov("evaluations", e1 + e2 + e3 + e4 + e5);
     rep.cov("distinct_nontrivial", d1 + d2 + d3);
     rep.cov("rule", "flags: all 65536 values; round trip: header variants x hlen 0..16 x sname/file boundary lengths (full product) + all option sets of size <=3 over 4 (thorough 6) codes x boundary lengths, each also decoded by an independent RFC 2131/3396 decoder; frames: every payload length 0..1472 x 5 patterns x 3 address tuples; checksum sweeps: all 65536 values of the first payload word and of the low half of the source address, for 4 (thorough 11) payload lengths x 2 (3) fills -- every value the one's-complement sum can take for that frame shape. distinct = outcome/shape classes (flags: (observed,expected) pairs; round trip: header/length classes; frames: length x pattern)");
     rep.cov("exhaustive", true);
@@ -646,7 +900,7 @@ pub fn run(tier: &str, replay: Option<Value>) -> ! {
     samples.extend(s3);
     samples.push(json!({"flags": "0x0000..=0xffff"}));
     rep.cov("samples", samples);
-    rep.assume("the broadcast-vs-unicast destination choice itself sits inline in DhcpService::recvdhcp behind a raw socket and is not executed; only its predicate get_broadcast_flag is");
+    rep.assume("wire part: client frames are unfragmented and the relay agent field giaddr is zero (relayed replies are not exercised)");
     rep.assume("a transmitted UDP checksum of 0 is accepted as 'no checksum' (RFC 768)");
     rep.finish()
 }
